@@ -14,6 +14,9 @@ PROPS = {
             {"pkg": ".", "dir": "s3db", "entry": "VerifH_C07_layer",
              "quick": {"params": "bf=2", "workers": 8, "timeout": 600},
              "thorough": {"params": "bf=2", "workers": 16, "timeout": 1800}},
+            {"pkg": ".", "dir": "s3db", "entry": "VerifH_C07_insert_equal",
+             "quick": {"params": "keys=4", "workers": 8, "timeout": 900},
+             "thorough": {"params": "keys=6", "workers": 16, "timeout": 3000}},
             {"pkg": ".", "dir": "s3db", "entry": "VerifH_C07_null",
              "quick": {"workers": 1}},
             {"pkg": ".", "dir": "s3db", "entry": "VerifH_C07_triple", "thorough_only": True, "reach": ["end", "chain"],
@@ -91,8 +94,11 @@ PROPS["C05"] = {
         {"pkg": ".", "dir": "s3db", "entry": "VerifH_C05_txn", "reach": ["end", "commit-failed"],
          "quick": {"params": "maxstmts=2", "workers": 16, "timeout": 900},
          "thorough": {"params": "maxstmts=3", "workers": 16, "timeout": 3000}},
+        {"pkg": "sqlite", "dir": "sqlite", "entry": "VerifH_C15_conn", "extra": [("s3db_export", ".")], "no_native": True,
+         "quick": {"params": "steps=3,twotables=1", "workers": 16, "timeout": 1800},
+         "thorough": {"params": "steps=4,twotables=1", "workers": 16, "timeout": 7200}},
     ],
-    "bounds": {"quick": "table of 4 committed keys (entries_per_node 2, depth 2); BEGIN, 1..2 statements from {insert fresh, insert duplicate, update, delete, insert growing the tree}, then ROLLBACK | COMMIT | COMMIT failing at a symbolic storage request followed by xRollback",
+    "bounds": {"quick": "sqlite layer: 3 connection-level operations from {set/clear write_time, set/clear deadline, BEGIN, write statement (optionally also writing a second table), COMMIT, ROLLBACK} against ghost state (one write time per transaction, nothing left behind); table of 4 committed keys (entries_per_node 2, depth 2); BEGIN, 1..2 statements from {insert fresh, insert duplicate, update, delete, insert growing the tree}, then ROLLBACK | COMMIT | COMMIT failing at a symbolic storage request followed by xRollback",
                "thorough": "1..3 statements"},
     "outside": "SQLite's statement journal; a failing statement is modelled as SQLite does it (the statement changed nothing)",
     "assumptions": [TIME_RANGE],
@@ -117,6 +123,8 @@ PROPS["C06"] = {
         {"pkg": ".", "dir": "s3db", "entry": "VerifH_C06_scan",
          "quick": {"params": "keys=3,constraints=1,maxlayer=1,nulls=1,reopen=0,dels=2,orders=3", "workers": 16, "timeout": 1200},
          "thorough": {"params": "keys=3,constraints=2,maxlayer=2,nulls=1", "workers": 16, "timeout": 6000}},
+        {"pkg": ".", "dir": "s3db", "entry": "VerifH_C06_scan", "tag": "-2cons",
+         "quick": {"params": "keys=2,constraints=2,maxlayer=1,nulls=0,reopen=0,dels=1,orders=3", "workers": 16, "timeout": 1200}},
     ],
     "bounds": {"quick": "3 symbolic INT keys (full int64) with uninterpreted layers 0..2 (entries_per_node 2: every tree shape of height <= 2), optionally one deleted row, optionally commit + re-open; 0..1 key constraints from {=,<,<=,>=,>} with symbolic INT or NULL operand; ORDER BY none/key asc/key desc/non-key",
                "thorough": "0..2 constraints"},
